@@ -115,6 +115,14 @@ def mapviaq(n: int):
     return ilist.map(viaq, ilist.range(n))
 
 @move
+def make_posq(d: int):
+    def posq_inner(i: int):
+        return leafq(i) + d
+    return posq_inner
+
+posq = make_posq(1)        # a closure made by running a kernel; kernels below pass it around as a value
+
+@move
 def sharedmoveq(n: int):
     d = schedule.device_fn(tkq, ilist.IList([0, 1, 2]), ilist.IList([0, 1]))
     d(n)
@@ -149,6 +157,7 @@ LIB_CALL = '''    dq = schedule.device_fn(tkq, ilist.IList([0, 1, 2]), ilist.ILi
     mq = mapsubq(2)
     sq = sharedmoveq(2)
     vq = ilist.map(viaq, ilist.range(2))
+    pq = ilist.map(posq, ilist.range(2))
     wq = mapviaq(2)
     move_by_waypoints(ilist.IList([spec.get_static_trap(zone_id="A"), grid.shift(spec.get_static_trap(zone_id="A"), 1.0, 2.0)]), True, True)
 '''
